@@ -383,24 +383,61 @@ func r113header(c *an.Ctx) {
 			if _, sn, f, isF := an.FieldOf(u.X); !isF || f != "header" || !strings.HasSuffix(sn, "/pkg/wrap.ClientServerStream") {
 				return
 			}
-			// guarded by a select case / receive on headerC
+			// guarded by a select case / receive on headerC, taken here or inside a helper that answers true only then
+			var observedHeaderC func(e an.CondEdge, depth int) bool
+			observedHeaderC = func(e an.CondEdge, depth int) bool {
+				cond, branch := e.If.Cond, e.Branch
+				for {
+					if n, isNot := cond.(*ssa.UnOp); isNot && n.Op == token.NOT {
+						cond, branch = n.X, !branch
+						continue
+					}
+					break
+				}
+				if bo, isBO := cond.(*ssa.BinOp); isBO && branch {
+					ex, isEx := bo.X.(*ssa.Extract)
+					if !isEx || ex.Index != 0 {
+						return false
+					}
+					sel, isSel := ex.Tuple.(*ssa.Select)
+					idx, isC := an.ConstInt(bo.Y)
+					if !isSel || !isC || int(idx) >= len(sel.States) {
+						return false
+					}
+					st := sel.States[idx]
+					_, _, f, isF := an.FieldOf(st.Chan)
+					return st.Dir == types.RecvOnly && isF && f == "headerC"
+				}
+				// `if c.headersSent()`: a local closure / helper the rules have not seen, every `true` of which is
+				// produced after such a receive
+				if call, isCall := cond.(*ssa.Call); isCall && branch && depth < 2 {
+					h := an.TransparentCallee(call)
+					if h == nil || h.Signature.Results().Len() != 1 {
+						return false
+					}
+					for _, r := range an.Returns(h) {
+						for _, lf := range an.PhiLeaves(r.Results[0]) {
+							if b, isC := an.ConstBool(lf.Val); isC && !b {
+								continue
+							}
+							ok := false
+							for _, e2 := range append(append([]an.CondEdge{}, lf.Conds...), an.GuardingEdges(r)...) {
+								if observedHeaderC(e2, depth+1) {
+									ok = true
+								}
+							}
+							if !ok {
+								return false
+							}
+						}
+					}
+					return true
+				}
+				return false
+			}
 			guarded := false
 			for _, e := range an.GuardingEdges(u) {
-				bo, isBO := e.If.Cond.(*ssa.BinOp)
-				if !isBO || !e.Branch {
-					continue
-				}
-				ex, isEx := bo.X.(*ssa.Extract)
-				if !isEx || ex.Index != 0 {
-					continue
-				}
-				sel, isSel := ex.Tuple.(*ssa.Select)
-				idx, isC := an.ConstInt(bo.Y)
-				if !isSel || !isC || int(idx) >= len(sel.States) {
-					continue
-				}
-				st := sel.States[idx]
-				if _, _, f, isF := an.FieldOf(st.Chan); st.Dir == types.RecvOnly && isF && f == "headerC" {
+				if observedHeaderC(e, 0) {
 					guarded = true
 				}
 			}
